@@ -50,11 +50,11 @@ type stats struct {
 // addrOf builds the address object for an address-shaped script with the reference decoder's view.
 func addrOf(script []byte) *btc.BtcAddr {
 	switch {
-	case len(script) == 25 && script[0] == 0x76:
+	case len(script) == 25 && script[0] == 0x76 && script[1] == 0xa9 && script[2] == 20 && script[23] == 0x88 && script[24] == 0xac:
 		a := &btc.BtcAddr{Version: 0}
 		copy(a.Hash160[:], script[3:23])
 		return a
-	case len(script) == 23 && script[0] == 0xa9:
+	case len(script) == 23 && script[0] == 0xa9 && script[1] == 20 && script[22] == 0x87:
 		a := &btc.BtcAddr{Version: 5}
 		copy(a.Hash160[:], script[2:22])
 		return a
@@ -281,7 +281,11 @@ func genCase(t *rapid.T, p sim.Profile) Case {
 		for j := range c.Sim.Ops[i].Txs {
 			for k := range c.Sim.Ops[i].Txs[j].Outs {
 				o := &c.Sim.Ops[i].Txs[j].Outs[k]
-				o.N = o.N % 3
+				if f := o.Fam % 18; f == 12 || f == 13 {
+					o.N = o.N/7%31*7 + o.N%3 // (scripts resembling address forms: every shape, three scripts of each)
+				} else {
+					o.N = o.N % 3
+				}
 				// now and then an output of value 0 (indexed when the minimum value is 0)
 				o.Zero = rapid.IntRange(0, 9).Draw(t, "zero") == 0
 			}
